@@ -144,7 +144,7 @@ def _impl_api(case):
             else:
                 pos[t, a] = np.array(_API_SITES[o[t, a]]) + np.array([0.02 if i[t, a] != -1 else 0.075, 0.0, 0.0])
     m = [[10, 0, 0], [0, 10, 0], [0, 0, 10]]
-    traj = synth.make_traj(m, ['Li'] * na, pos)
+    traj = synth.make_traj(m, ['Li'] * na, pos, images=synth.image_seed(case))
     sites = Structure(lattice=traj.get_lattice(), species=['Li'] * 4, coords=_API_SITES, labels=_API_LABELS)
     radius = {'A': 1.0, 'B': 1.0, 'C': 1.0} if case.get('dict_radius') else 1.0
     try:
